@@ -98,6 +98,8 @@ def run(prop, tier, seed, replay=None):
             rep.violation("%s (RFC 4791 says %s) case=%s" % (v["dev"], "match" if v["want"] else "no match",
                                                              json.dumps({k: rec[k] for k in rec if k != "name"})[:500]),
                           {"property": prop, "verdict": v, "case": rec})
+    from . import readoverlap, reportrace
+    readoverlap.check(rep, [n for n in reportrace.PAIRS if n.startswith("query")])
     if not data_ok:
         rep.violation("calendar-data of a returned resource differs from GET", {"property": prop})
     for d, n in sorted(ext.items()):
